@@ -21,8 +21,8 @@ struct Mon {
 template <class Sched = inline_scheduler>
 struct LockRcv {
   Mon* mon; int who; int* count; char* how; inplace_stop_token tok{}; Sched sch{};
-  void set_value() noexcept { ++*count; *how = 'V'; vmc::check(*count == 1, "C15,C01", "completed-twice", "async_lock completed twice"); mon->enter(who); }
-  void set_done() noexcept { ++*count; *how = 'D'; vmc::check(*count == 1, "C15,C01", "completed-twice", "async_lock completed twice"); }
+  void set_value() noexcept { vmc::publish(); ++*count; *how = 'V'; vmc::check(*count == 1, "C15,C01", "completed-twice", "async_lock completed twice"); mon->enter(who); }
+  void set_done() noexcept { vmc::publish(); ++*count; *how = 'D'; vmc::check(*count == 1, "C15,C01", "completed-twice", "async_lock completed twice"); }
   template <class E> void set_error(E&&) noexcept { ++*count; *how = 'E'; }
   friend inplace_stop_token tag_invoke(tag_t<get_stop_token>, const LockRcv& r) noexcept { return r.tok; }
   friend Sched tag_invoke(tag_t<get_scheduler>, const LockRcv& r) noexcept { return r.sch; }
